@@ -9,7 +9,7 @@ import (
 
 func init() {
 	register(&Meta{ID: "C08", Level: "exploration", QuickSec: 45, ThoroSec: 900, WallMaxS: 120,
-		Rule: "each run = seeded plan: 1-3 members, R 1-2, 2-6 lockers bound to entry points (embedded owner/non-owner, cluster client, raw RESP) competing for 1-2 lock keys with Lock / LockWithTimeout whose timeout, deadline and hold time are drawn around each other, Lease extensions, Unlock, unlock/lease with stale tokens (after the lock changed hands) and forged tokens, and minutes-long clock jumps while an untimed lock is held; the oracle works on the simulated clock: mutual exclusion of certain-hold intervals, failing Lock not before its deadline, stale/forged tokens rejected and the holder unaffected, timed locks not released early and acquirable within timeout + retry period + 4 x max latency; non-trivial = at least one Lock had to wait or failed while another client held the key; distinct = schedule fingerprints",
+		Rule: "each run = seeded plan: 1-3 members, R 1-2, 2-6 lockers bound to entry points (embedded owner/non-owner, cluster client, raw RESP) competing for 1-2 lock keys with Lock / LockWithTimeout whose timeout, deadline and hold time are drawn around each other, Lease extensions, Unlock, unlock/lease with stale tokens (after the lock changed hands) and forged tokens (a foreign full-length token, no bytes at all, one byte more, half of the holder's own token), and minutes-long clock jumps while an untimed lock is held; the oracle works on the simulated clock: mutual exclusion of certain-hold intervals, failing Lock not before its deadline, stale/forged tokens rejected and the holder unaffected, timed locks not released early and acquirable within timeout + retry period + 4 x max latency; non-trivial = at least one Lock had to wait or failed while another client held the key; distinct = schedule fingerprints",
 		Assume: []string{"membership stable", "lock deadlines stay below the member-to-member client read timeout (3 s): a forwarded DM.LOCK that waits longer than that is answered with an i/o timeout by the forwarding member (observed, noted in DESIGN.md)", "hold intervals are reasoned about with the invoke/return uncertainty of every operation; expiry is millisecond-granular"},
 	}, genC08, oracleC08)
 }
@@ -45,6 +45,10 @@ func genC08(seed uint64, tier string) *plan.Plan {
 				sc.Ops = append(sc.Ops, plan.Op{K: "lease", Key: key, Ref: li, Dur: int64(Pick(r, 20, 100, 500))})
 				sc.Ops = append(sc.Ops, plan.Op{K: "ctl.sleep", Dur: int64(Pick(r, 1, 30, 200))})
 			}
+			if sc.Kind == "raw" && r.Bool(300) {
+				// half of the holder's own token while it holds the lock: never valid, the lock stays
+				sc.Ops = append(sc.Ops, plan.Op{K: Pick(r, "unlock", "lease"), Key: key, Ref: li, Dur: 200, Tag: "prefix"})
+			}
 			if r.Bool(850) {
 				sc.Ops = append(sc.Ops, plan.Op{K: "unlock", Key: key, Ref: li})
 			}
@@ -61,6 +65,10 @@ func genC08(seed uint64, tier string) *plan.Plan {
 		sc := plan.Script{ID: 40, Kind: "raw", M: r.Intn(n)}
 		for i, k := 0, r.Range(1, 4); i < k; i++ {
 			sc.Ops = append(sc.Ops, plan.Op{K: Pick(r, "unlock", "lease"), Key: fmt.Sprintf("L%d", r.Intn(nkeys)), Ref: -1, Dur: 300, D: int64(Pick(r, 1000, 20000, 100000))})
+		}
+		// the same attempts with tokens of another length: no bytes at all, one byte more
+		for i := range sc.Ops {
+			sc.Ops[i].Tag = Pick(r, "", "empty", "empty", "longer")
 		}
 		ph.Clients = append(ph.Clients, sc)
 	}
@@ -121,7 +129,7 @@ func oracleC08(p *plan.Plan, his []plan.Rec, res *plan.Result) {
 		if (r.Op.K != "unlock" && r.Op.K != "lease") || r.Err == "skipped" {
 			continue
 		}
-		if r.Op.Ref < 0 {
+		if r.Op.Ref < 0 || r.Op.Tag == "prefix" {
 			if r.Err != plan.ENoSuchLock {
 				viol(res, "forged-token-accepted", r.Op.Key, "%s with a forged token returned %q, want no-such-lock", descRecT(r), r.Err)
 			}
